@@ -97,6 +97,8 @@ class View:
         for a, val in self.s.atoms:
             if a[0] == kind_eq and val is True and a[1] != ch:
                 return False
+        # every match on the character narrows it: an arm shared by several patterns (`A | B =>`) leaves those, `_ =>` excludes the listed ones
+        cands = None
         for a, val in self.s.atoms:
             if a[0] == kind_sw:
                 allv = a[1]
@@ -104,7 +106,12 @@ class View:
                     if ord(ch) in allv:
                         return False
                 else:
-                    return ord(ch) in val
+                    cands = set(val) if cands is None else (cands & set(val))
+        if cands is not None:
+            if ord(ch) not in cands:
+                return False
+            if len(cands) == 1:
+                return True
         return None
 
     def char_is(self, ch):
@@ -114,10 +121,21 @@ class View:
         return self._is("rmc_eq", "rmc_switch", ch)
 
     def char_switch(self):
+        """What the matches on the typed character say on this path, taken together: (excluded code points, 'otherwise') when only
+        `_ =>` arms were taken, (listed, arm's code points) when some arm narrowed it; None without a match."""
+        cands, excluded, seen = None, set(), False
         for a, val in self.s.atoms:
             if a[0] == "char_switch":
-                return a[1], val
-        return None
+                seen = True
+                if val == "otherwise":
+                    excluded |= set(a[1])
+                else:
+                    cands = set(val) if cands is None else (cands & set(val))
+        if not seen:
+            return None
+        if cands is None:
+            return tuple(sorted(excluded)), "otherwise"
+        return tuple(sorted(excluded | cands)), tuple(sorted(cands - excluded))
 
     def rmc_in_marks(self):
         for a, val in self.s.atoms:
